@@ -56,6 +56,11 @@ func (b *RulesBuilder) Apply(rules []*config_parser.RoutingRule) (err error) {
 			if !ok {
 				return fmt.Errorf("unknown function: %v", f.Name)
 			}
+			if len(f.Params) == 0 {
+				// A condition without values (e.g. a geodata expansion that matched nothing) cannot be
+				// lowered to any match set; dropping it would silently widen the rule.
+				return fmt.Errorf("failed to parse '%v': empty parameter list is not supported", f.String(false, false, false))
+			}
 			paramValueGroups, keyOrder := groupParamValuesByKey(f.Params)
 			for jMatchSet, key := range keyOrder {
 				paramValueGroup := paramValueGroups[key]
